@@ -58,21 +58,22 @@ Definition isdir (fs : fsT) (p : path) : bool :=
 Definition lexists (fs : fsT) (p : path) : bool :=
   match lookup fs p with Some _ => true | None => false end.
 
-(* error class of a failing stat/open/listdir on an absent path: ENOTDIR when the
-   nearest existing ancestor is a regular file, EOTHER for an over-long name *)
+(* error class of a failing stat/open/listdir/mkdir on an absent path: the path
+   walk stops at the first component that cannot be resolved: ENOTDIR when it
+   hangs below a regular file, EOTHER (ENAMETOOLONG) when its name is over-long,
+   ENOENT otherwise *)
 Fixpoint absent_err (fs : fsT) (p : path) : oserr :=
   match p with
   | [] => ENOENT
-  | _ :: d =>
+  | n :: d =>
       match lookup fs d with
       | Some (NFile _) => ENOTDIR
-      | Some NDir => ENOENT
+      | Some NDir => if name_ok n then ENOENT else EOTHER
       | None => absent_err fs d
       end
   end.
 
-Definition stat_err (fs : fsT) (p : path) : oserr :=
-  if path_ok p then absent_err fs p else EOTHER.
+Definition stat_err (fs : fsT) (p : path) : oserr := absent_err fs p.
 
 (* suffix test: q lies strictly below p *)
 Fixpoint below (p q : path) : bool :=
@@ -111,12 +112,11 @@ Definition mkdir (fs : fsT) (p : path) : fsT + oserr :=
   match p with
   | [] => inr EEXIST
   | n :: d =>
-      if negb (name_ok n) then inr EOTHER else
       match lookup fs p with
       | Some _ => inr EEXIST
       | None =>
           match lookup fs d with
-          | Some NDir => inl (upd p (Some NDir) fs)
+          | Some NDir => if name_ok n then inl (upd p (Some NDir) fs) else inr EOTHER
           | Some (NFile _) => inr ENOTDIR
           | None => inr (stat_err fs p)
           end
@@ -174,21 +174,24 @@ Definition replace_in (fs : fsT) (p : path) (f : fnode) : fsT + oserr :=
       end
   end.
 
-(* os.makedirs(d, exist_ok=True) *)
-Fixpoint makedirs (fs : fsT) (p : path) : fsT + oserr :=
+(* os.makedirs(d, exist_ok=True): the directories made before a failure stay *)
+Fixpoint makedirs_p (fs : fsT) (p : path) : fsT * option oserr :=
   match lookup fs p with
-  | Some NDir => inl fs
-  | Some (NFile _) => inr EEXIST
+  | Some NDir => (fs, None)
+  | Some (NFile _) => (fs, Some EEXIST)
   | None =>
       match p with
-      | [] => inl fs
+      | [] => (fs, None)
       | n :: d =>
-          match makedirs fs d with
-          | inl fs' => mkdir fs' p
-          | inr e => inr e
+          match makedirs_p fs d with
+          | (fs', None) => match mkdir fs' p with inl fs'' => (fs'', None) | inr e => (fs', Some e) end
+          | (fs', Some e) => (fs', Some e)
           end
       end
   end.
+
+Definition makedirs (fs : fsT) (p : path) : fsT + oserr :=
+  match makedirs_p fs p with (fs', None) => inl fs' | (_, Some e) => inr e end.
 
 (* open(p, 'w') + write + close by user code or by Cache.write: creates or
    overwrites a regular file; [id] is the identity of a newly created inode *)
